@@ -5,7 +5,7 @@
 import DymVerif.Lemmas.CoreGenesis
 import DymVerif.Lemmas.CoreRoles5
 namespace DymVerif.C18
-open DymVerif DymVerif.Core
+open DymVerif DymVerif.Core DymVerif.Core.Roles
 
 /-- **export ∘ import is the identity** on every M-Core state whose rollapp ids are pairwise distinct
     and whose notice queue is backed by the sequencer records — all components: rollapp records,
